@@ -327,6 +327,8 @@ class X12LoopDataNode(X12DataNode):
         if seg_data is None:
             raise errors.X12PathError('X12 Path is invalid or was not found: %s' % (x12_path_str))
         xpath = path.X12Path(new_path)
+        if xpath.ele_idx is None:
+            raise errors.X12PathError('X12 Path does not name an element: %s' % (x12_path_str))
         xpath.loop_list = []
         xpath.id_val = None
         seg_part = xpath.format()
